@@ -6,9 +6,8 @@ From RPFT Require Import Base.Sexp Base.PyStr Base.Result Gen.Tables Flow.Flow F
 Import ListNotations.
 Local Open Scope N_scope.
 
-(* the executable uuid supply: one pseudo-character above the Unicode range, so that an invented
-   identifier can never be equal to a string of the input *)
-Definition wire_fresh (k : nat) : id := [1114112 + N.of_nat k].
+(* the executable uuid supply: Compile.std_fresh k = [1114112 + k] *)
+Definition wire_fresh : nat -> id := std_fresh.
 
 Definition dec_nkind (x : sexp) : option nkind :=
   match x with
